@@ -88,6 +88,20 @@ def base_traffic(rng, tree, keys, cr, nonce):
                              signer_override={0: (keys.index_of(o.public_key.public_key) + 1) % 5})]
         for t in bad:
             out.append(("data_bad_tx", fr(DataMessage(DATA_TRANSACTION, t), rng)))
+        # an otherwise valid, correctly signed spend in an encoding the encoder never produces: 64 outputs with the output
+        # count written as the single byte 40 instead of 80 40 (undecodable: the connection is closed, nothing is pooled)
+        if o.value >= 64:
+            t64 = chain.make_tx(keys, utxo, [r], [(1, k_ % 5) for k_ in range(63)] + [(o.value - 63, 0)])
+            raw = t64.serialize()
+            pos = 1 + 1 + len(t64.inputs[0].serialize())
+            if raw[pos:pos + 2] == bytes([0x80, 0x40]):
+                m_ = fr(DataMessage(DATA_TRANSACTION, t64), rng)
+                whole = bytearray(m_)
+                at = bytes(whole).rfind(raw)
+                if at >= 0:
+                    new_raw = raw[:pos] + bytes([0x40]) + raw[pos + 2:]
+                    body = bytes(whole[8:at]) + new_raw
+                    out.append(("data_noncanonical_tx", MAGIC + struct.pack(b">I", len(body)) + body))
     return out
 
 
